@@ -3,7 +3,7 @@ import ModelExtra
 /-! `modeldriver`: the generated model `Gen` vs the real crate (tie B).  A MODEL_MISMATCH means the model no longer
 describes the code (translator, primitive table or a stale override) — the tie is broken. -/
 open DriverCommon
-def evalModel (ws : List String) : Option (Option String) :=
+def evalModel (ws : List String) (_res : String) : Option (Option String) :=
   match ModelExtra.handle ws with
   | some r => some r
   | none =>
